@@ -264,6 +264,11 @@ class Builder:
                     forbid.add(s.ent.name.lower())
                 s = s.parent
             cands = [c for c in cands if c.lower() not in forbid]
+            if scope.kind == "block":
+                # gfortran 12 rejects a BLOCK-local variable that has the name of an accessible procedure when it is used as an
+                # actual argument ("Invalid procedure argument"; legal, the outer entity is merely hidden): not generated
+                acc = scope.accessible()
+                cands = [c for c in cands if not (c.lower() in acc and acc[c.lower()].kind in ("function", "subroutine", "interface", "proto"))]
             if cands:
                 self.stats["homonyms"] += 1
                 return self.d_pick(cands)
